@@ -23,10 +23,15 @@ abbrev Name := List Char
 /-- `str.upper()`, ASCII only -/
 def fold (n : Name) : Name := n.map Char.toUpper
 
+/-- attribute values.  Equality is structural: Python's `False == 0 == 0.0` across bool/int/float is NOT
+    modelled (the C10 histories use `int`, `str`, `none` only; `bool`/`real` occur as typed defaults, C19);
+    a float is kept as the text Python prints for it. -/
 inductive Val where
   | int (i : Int)
   | str (s : List Char)
   | none
+  | bool (b : Bool)
+  | real (repr : List Char)
   deriving DecidableEq, Repr, Inhabited
 
 /-! ### `__dict__`: insertion-ordered association list keyed by exact spelling -/
@@ -387,16 +392,19 @@ def simpleDefault (ty : Name) (nextId : Nat) : Option (Val × Nat) :=
   else if u = "UNIQUE_ID".toList then some (.int nextId, nextId + 1)
   else none
 
+/-- `default_value` as a parameter: type name, generator position ↦ (value, new position); `none` = MetaException -/
+abbrev DfltFn := Name → Nat → Option (Val × Nat)
+
 /-- defaults for the non-referential attributes, in order; stops at an unknown type (`false`) -/
-def computeDefaults (c : Cls) : List (Name × Name) → Nat → List (Name × Val) × Nat × Bool
+def computeDefaults (dflt : DfltFn) (c : Cls) : List (Name × Name) → Nat → List (Name × Val) × Nat × Bool
   | [], n => ([], n, true)
   | (a, ty) :: r, n =>
-    if a ∈ c.refs then computeDefaults c r n
+    if a ∈ c.refs then computeDefaults dflt c r n
     else
-      match simpleDefault ty n with
+      match dflt ty n with
       | none => ([], n, false)
       | some (v, n') =>
-        let (l, n'', ok) := computeDefaults c r n'
+        let (l, n'', ok) := computeDefaults dflt c r n'
         ((a, v) :: l, n'', ok)
 
 /-- the batch-relate tail of `MetaClass.new` for the one association: relate every target whose
@@ -415,13 +423,14 @@ def relateMatches (w : World) (b : Nat) (tgtKey : Name) (v : Val) : List Nat →
 
 /-- `MetaModel.new(kind, *args, **kwargs)`; the instance is appended to the storage first and stays there
     whatever happens afterwards -/
-def newInst (w : World) (kind : Name) (args : List Val) (kwargs : List (Name × Val)) : World × Option Exc :=
+def newInstWith (dflt : DfltFn) (w : World) (kind : Name) (args : List Val) (kwargs : List (Name × Val)) :
+    World × Option Exc :=
   match findMetaclass w.classes kind with
   | none => (w, some .unknownClass)
   | some c =>
     let key := fold kind
     let b := w.insts.length
-    let (defs, nid, dok) := computeDefaults c c.attrs w.nextId
+    let (defs, nid, dok) := computeDefaults dflt c c.attrs w.nextId
     if !dok then
       -- default_value raised MetaException: the attributes before the offending one are set
       let (acc, _) := assignAll c ⟨[], []⟩ defs
@@ -444,6 +453,10 @@ def newInst (w : World) (kind : Name) (args : List Val) (kwargs : List (Name × 
                 (w1, none)
               else relateMatches w1 b as.tgtKey v (storageOf w1 as.tgtKind)
           else (w1, none)
+
+/-- the C10 histories: IntegerGenerator (position n yields n, starting at 1) and three types -/
+def newInst (w : World) (kind : Name) (args : List Val) (kwargs : List (Name × Val)) : World × Option Exc :=
+  newInstWith simpleDefault w kind args kwargs
 
 end Attr
 end Pyx
